@@ -345,3 +345,61 @@ func prop(t *rapid.T) {
 }
 
 func TestProp(t *testing.T) { rapid.Check(t, prop) }
+
+// propGlobalVarRedefined: global path variables (SetGlobalVar) are read when a route is registered.  An application
+// (or a test suite) that redefines one and then builds another router with the same route path gets routes that follow
+// the definition in force at THEIR registration: the parameter value handed out always satisfies that regex, and a
+// path that does not is not matched.
+func propGlobalVarRedefined(t *rapid.T) {
+	ev.Case()
+	const name = "zzgv" // used by this property only
+	type def struct {
+		re   string
+		good []string
+		bad  []string
+	}
+	menu := []def{
+		{`\d+`, []string{"12", "007"}, []string{"ab", "1a"}},
+		{`[a-z]+`, []string{"ab", "z"}, []string{"12", "a1"}},
+		{`[a-z]\d`, []string{"a1", "z9"}, []string{"ab", "12", "a12"}},
+		{`\w{2}`, []string{"ab", "12", "a1"}, []string{"z", "007"}},
+	}
+	path := rapid.SampledFrom([]string{"/gv/{zzgv}", "/gv/{zzgv}/tail", "/{zzgv}.html", "/gv[/{zzgv}]"}).Draw(t, "routePath")
+	steps := rapid.IntRange(2, 4).Draw(t, "redefinitions")
+	for i := 0; i < steps; i++ {
+		d := rapid.SampledFrom(menu).Draw(t, "definition")
+		rux.SetGlobalVar(name, d.re)
+		var opts []func(*rux.Router)
+		if rapid.Bool().Draw(t, "caching") {
+			opts = append(opts, rux.EnableCaching)
+		}
+		r := rux.New(opts...)
+		r.GET(path, func(c *rux.Context) { c.WriteString("v=" + c.Param(name)) })
+		mk := func(v string) string {
+			p := strings.Replace(strings.Replace(path, "[/{zzgv}]", "/"+v, 1), "{zzgv}", v, 1)
+			return p
+		}
+		for _, v := range d.good {
+			ev.Eval()
+			rec := httptest.NewRecorder()
+			r.ServeHTTP(rec, httptest.NewRequest("GET", mk(v), nil))
+			if rec.Code != 200 || rec.Body.String() != "v="+v {
+				t.Fatalf("step %d: global var %s is %q when %s is registered; GET %s answers %d %q, want 200 %q", i, name, d.re, path, mk(v), rec.Code, rec.Body.String(), "v="+v)
+			}
+		}
+		for _, v := range d.bad {
+			ev.Eval()
+			rec := httptest.NewRecorder()
+			r.ServeHTTP(rec, httptest.NewRequest("GET", mk(v), nil))
+			if rec.Code == 200 {
+				t.Fatalf("step %d: global var %s is %q when %s is registered; GET %s is answered 200 %q although %q does not satisfy it", i, name, d.re, path, mk(v), rec.Body.String(), v)
+			}
+		}
+		if i > 0 {
+			ev.NonTrivial(fmt.Sprint(path, i, d.re), func() string { return fmt.Sprintf("%s re-registered on a new router after %s was redefined to %q", path, name, d.re) })
+		}
+	}
+	ev.Class("global-variable-redefined-between-routers")
+}
+
+func TestPropGlobalVarRedefined(t *testing.T) { rapid.Check(t, propGlobalVarRedefined) }
